@@ -131,6 +131,12 @@ class Gen(object):
                 body = [(True, self.body_atom(r.choice(prob_atoms), ["a", "b"]))]
             prog.append(("ad", [(p, ("h%d" % j, ())) for j, p in enumerate(ps)], body))
             prob_atoms += [("h%d" % j, 0) for j in range(n)]
+        if self.ads and r.random() < 0.25:
+            # a non-ground annotated disjunction: one independent choice per element of the domain
+            n = r.randint(2, 3)
+            ps = [Fraction(r.randint(1, 3), 10) for _ in range(n)]
+            prog.append(("ad", [(p, ("k%d" % j, ("X",))) for j, p in enumerate(ps)], [(True, ("d", ("X",)))]))
+            prob_atoms += [("k%d" % j, 1) for j in range(n)]
         # rules
         derived = [("p", 0), ("q", 1), ("r", 0), ("s", 1)]
         defined = []
@@ -291,7 +297,7 @@ def graph_program(rng, evidence=True, negation=True):
     return prog
 
 
-def cycle_program(rng, evidence=True):
+def cycle_program(rng, evidence=True, k=None):
     """Third profile: three or four mutually recursive nullary predicates with interlocking positive cycles
     (1-3 clauses each, bodies of 1-2 literals over the predicates and 3-4 probabilistic facts), several of
     them queried; optionally two evidence statements."""
@@ -300,7 +306,7 @@ def cycle_program(rng, evidence=True):
     facts = [("f%d" % i, ()) for i in range(nf)]
     for a in facts:
         prog.append(("fact", rng.choice(PROBS), a))
-    k = rng.randint(3, 4)
+    k = k or rng.randint(3, 4)
     preds = [("c%d" % i, ()) for i in range(k)]
     rules = []
     for i, p in enumerate(preds):
@@ -389,6 +395,15 @@ def compound_program(rng):
         prog.append(("rule", (w, ()), [(True, ("p", (pat,)))]))
     qs = [(w, ()) for w, _ in used] + [("p", (rng.choice(["f(1)", "f(2)", "g(1)", "g(2)", "h(1)"]),)) for _ in range(2)]
     rng.shuffle(qs)
+    if rng.random() < 0.5:
+        # a predicate of arity 3 whose heads mix constants and variables at every position (clause indexing on several
+        # arguments), called with all arguments ground and with some of them open
+        for _ in range(rng.randint(2, 4)):
+            body = [(rng.random() < 0.85, rng.choice(facts)) for _ in range(rng.randint(1, 2))]
+            prog.append(("rule", ("w", tuple(rng.choice(["a", "b", "_", "_"]) for _ in range(3))), body))
+        wq = [("w", tuple(rng.choice(["a", "b"]) for _ in range(3))) for _ in range(2)]
+        prog.append(("rule", ("v", ()), [(True, ("w", tuple(rng.choice(["a", "b", "_"]) for _ in range(3))))]))
+        qs = wq + [("v", ())] + qs
     seen = []
     for q in qs[:rng.randint(2, 4)]:
         if q not in seen:
@@ -399,7 +414,33 @@ def compound_program(rng):
     return prog
 
 
-def programs(seed, n, extreme=False, compound=False, disj=True, **kw):
+def unfounded_program(rng):
+    """Profile for the order checks only: recursion *without* a base case (an unfounded positive loop: false in every
+    world, but the engine only learns that when cycles are broken) next to a conjunction g(Y), \\+g(Y) that is false by
+    simplification; non-ground queries, so that which instances are *reported* (with probability 0) depends on what
+    grounding finds."""
+    prog = [("fact", rng.choice(PROBS), ("g", (c,))) for c in rng.sample(["1", "2", "3"], rng.randint(1, 2))]
+    rules = [("rule", ("r", ("3", "Y")), [(True, ("s", ("Y",)))]),
+             ("rule", ("s", ("X",)), [(True, ("r", ("X", "Y"))), (True, ("s", ("Y",)))]),
+             ("rule", ("r", ("X", "X")), [(True, ("g", ("X",)))]),
+             ("rule", ("t", ("X",)), [(True, ("s", ("X",))), (True, ("r", ("X", "_")))]),
+             ("rule", ("t", ("X",)), [(True, ("r", ("X", "Y"))), (False, ("g", ("Y",)))])]
+    keep = [r_ for r_ in rules if rng.random() < 0.85]
+    if not any(r_[1][0] == "t" for r_ in keep):
+        keep.append(rules[-1])
+    for pred in ("r", "s"):
+        if not any(r_[1][0] == pred for r_ in keep):
+            keep.append([r_ for r_ in rules if r_[1][0] == pred][0])
+    rng.shuffle(keep)
+    prog += keep
+    qs = [("t", ("X",)), ("s", ("X",)), ("r", ("X", "Y"))]
+    rng.shuffle(qs)
+    for q in qs[:rng.randint(1, 3)]:
+        prog.append(("query", q))
+    return prog
+
+
+def programs(seed, n, extreme=False, compound=False, disj=True, unfounded=False, more_cycles=False, **kw):
     """disj=True: a quarter of the programs are written with explicit body disjunctions (see render).  extreme=True: in a third of the programs one probabilistic fact gets probability 0.0 or 1.0 (valid
     annotations at the border of the range; weight propagation and log space treat them specially)."""
     rng = random.Random(seed)
@@ -413,12 +454,14 @@ def programs(seed, n, extreme=False, compound=False, disj=True, **kw):
             p = rare_evidence_program(rng)
         elif compound and r > 0.85:
             p = compound_program(rng)
+        elif unfounded and r > 0.8:
+            p = unfounded_program(rng)
         elif g.neg_cycles and r < 0.7:
             p = negcycle_program(rng, evidence=g.evidence)
         elif not g.neg_cycles and g.recursion and r < 0.25:
             p = graph_program(rng, evidence=g.evidence, negation=g.negation)
-        elif not g.neg_cycles and g.recursion and r < 0.4:
-            p = cycle_program(rng, evidence=g.evidence)
+        elif not g.neg_cycles and g.recursion and r < (0.6 if more_cycles else 0.4):
+            p = cycle_program(rng, evidence=g.evidence, k=rng.randint(3, 5) if more_cycles else None)
         else:
             p = g.program()
         if count_choices(p) <= g.max_choices:
